@@ -4,6 +4,7 @@ go 1.24.4
 
 require (
 	github.com/alicebob/miniredis/v2 v2.35.0
+	github.com/google/uuid v1.6.0
 	tunnox-core v0.0.0
 )
 
@@ -12,7 +13,6 @@ require (
 	github.com/dgryski/go-rendezvous v0.0.0-20200823014737-9f7001d12a5f // indirect
 	github.com/fatih/color v1.18.0 // indirect
 	github.com/golang-jwt/jwt/v5 v5.2.2 // indirect
-	github.com/google/uuid v1.6.0 // indirect
 	github.com/gorilla/mux v1.8.1 // indirect
 	github.com/gorilla/websocket v1.5.3 // indirect
 	github.com/jackc/pgpassfile v1.0.0 // indirect
